@@ -48,20 +48,16 @@ def extra(binary, build, tier, rng):
              ("u64", 0, 2, 64), ("i32", -1, 1, 64), ("u32", 5, 9, 64), ("usize", 0, 6, 64), ("i64", -5, 5, 64), ("u64", 0, (1 << 63), 64), ("u64", 7, 1000006, 64)]
     if tier == "thorough":
         specs += [("u16", 0, r - 1, 32) for r in (3, 5, 7, 9, 11, 255, 1001, 65535)] + [("u64", 0, r - 1, 64) for r in (3, 5, 7, 9, 11, 13, 641, 2 ** 32 + 1, 2 ** 40 + 3)]
-    total = 0
+    from .preimage_oracle import first_draw_counts
+    ps = []
     for ty, lo, hi, L in specs:
         r = hi - lo + 1
         def mk(w, ty=ty, lo=lo, hi=hi):
             return "uint ty=%s lo=%d hi=%d incl=1 via=try n=1 words=%d" % (ty, lo, hi, w)
+        def mk2(w1, w2, ty=ty, lo=lo, hi=hi):
+            return "uint ty=%s lo=%d hi=%d incl=1 via=try n=1 words=%d,%d" % (ty, lo, hi, w1, w2)
         def parse(res, lo=lo):
             f = parse_ok(res)
             return None if f is None else int(f[0]) - lo
-        p = Prober(binary, mk, parse)
-        vals = [0, 1, r - 1, r // 2] + [rng.below(r) for _ in range(2)]
-        msg, info = count_values(p, r, L, [v for v in vals if 0 <= v < r], rng, "Uniform<%s>(%d..=%d)" % (ty, lo, hi))
-        total += p.calls
-        if msg == "inconclusive":
-            yield {"kind": "note", "text": "preimage count inconclusive for %s %d..=%d: %s" % (ty, lo, hi, info)}
-        elif msg:
-            yield {"kind": "oracle", "build": build, "request": mk(info[min(info)][0]), "impl": str({k: v for k, v in info.items()})[:600], "model": "", "oracle": msg}
-    yield {"kind": "count", "what": "preimage-interval-probes", "n": total}
+        ps.append(("Uniform<%s>(%d..=%d)" % (ty, lo, hi), r, L, mk, parse, mk2))
+    yield from first_draw_counts(binary, build, rng, ps, "preimage-interval-probes")
